@@ -21,9 +21,10 @@ def submission_main_code(self):
 
 
 @spec
-def count_newlines(text):
-    """line breaks as the Python parser counts them: \\n, \\r\\n and a lone \\r (str_count stands for str.count)"""
-    return str_count(text, "\n") + str_count(text, "\r") - str_count(text, "\r\n")
+def count_newlines(text, following):
+    """line breaks of `text` as the Python parser counts them: \\n, \\r\\n and a lone \\r; a \\r\\n whose \\n is the
+    first character of `following` is one break, not two (str_count stands for str.count)"""
+    return str_count(text, "\n") + str_count(text, "\r") - str_count(text + following[:1], "\r\n")
 
 
 @spec
@@ -148,7 +149,7 @@ def next_section(name="", report=None):
     ensures("independent_section_is_the_chunk", implies(i < seq_len(S) and independent,
             report.submission.main_code == S[i]
             and eqv(at(report.submission.line_offsets, report.submission.main_file),
-                    count_newlines(join("", prefix(S, i))))))
+                    count_newlines(join("", prefix(S, i)), S[i]))))
     ensures("cumulative_section_is_the_prefix", implies(i < seq_len(S) and not independent,
             report.submission.main_code == join("", prefix(S, i + 1))))
     ensures("past_the_end_is_reported", implies(i >= seq_len(S),
